@@ -90,4 +90,11 @@ PROPS = {
         assumptions=['file content is written through the library itself (FAT, ext4) or through a host workspace (iso9660, squashfs); a wrong writer shows up as a byte mismatch here too',
                      'short reads are allowed as io.Reader allows them; only n>0 progress, byte equality, EOF placement and Seek arithmetic are demanded'],
     ),
+    'C17': dict(
+        level='exploration', race=True, crash_is_violation=True,
+        quick=dict(runs=[run('TestC17', 14, shards=8, timeout=500, shrinktime='30s')]),
+        thorough=dict(runs=[run('TestC17', 2500, timeout=3000, shrinktime='60s')]),
+        assumptions=['schedules are sampled (GOMAXPROCS, injected yields/sleeps in the backend ReadAt, repetition), not enumerated; the race detector flags only races that occur in an explored schedule',
+                     'GetCacheSize is not called concurrently (the statement names resizing, not querying)'],
+    ),
 }
